@@ -93,6 +93,9 @@ struct Gen {
 			if (R.range.empty()) R.range = "0";
 			L.rows.push_back(R);
 		}
+		// names that are plain tokens and still special: the label the writers give an unnamed objective, and what the library generates for unnamed rows / columns
+		if (m > 0 && r.chance(1, 14)) { static const char *sp[] = {"obj", "obj", "OBJ", "c1", "r_1", "c2_0"}; L.rows[r.below(L.rows.size())].name = sp[r.below(6)]; }
+		if (n > 0 && r.chance(1, 20)) { static const char *sp[] = {"obj", "x1", "c1", "x_2"}; std::string nm = sp[r.below(4)]; bool used = false; for (auto &c : L.cols) if (c.name == nm) used = true; if (!used) L.cols[r.below(L.cols.size())].name = nm; }
 		if ((fam == 5 || fam == 6) && m > 0) {   // add a contradicting twin of some row
 			size_t i = r.below(L.rows.size()); PlanRow T = L.rows[i]; T.name = strf("rX%d", (int)L.rows.size());
 			if (T.nz.empty()) T.nz.push_back({0, "1"}), L.rows[i].nz = T.nz;
